@@ -16,10 +16,17 @@ def ops_for(declared, flavour):
             out.append(("D %s=%s" % (fresh[0], x), [decl(fresh[0], var(x))], [fresh[0]]))
         if len(fresh) >= 2:
             out.append(("M %s,%s=%s" % (fresh[0], fresh[1], x), [decl([fresh[0], fresh[1]], var(x))], fresh[:2]))
+        # a LITERAL that mentions x: the literal is new, and so is everything in it (x's value is copied in)
+        lit = lst(var(x), num(3)) if flavour == "list" else dct(["a", "z"], [var(x), num(3)])
+        if fresh:
+            out.append(("DL %s=[%s]" % (fresh[0], x), [decl(fresh[0], lit)], [fresh[0]]))
+        if len(fresh) >= 2:
+            out.append(("ML %s,%s=[%s]" % (fresh[0], fresh[1], x), [decl([fresh[0], fresh[1]], lit)], fresh[:2]))
         for y in declared:
             if x != y:
                 out.append(("S %s=%s" % (y, x), [ex(asg(var(y), var(x)))], []))
                 out.append(("E %s#=%s" % (y, x), [ex(asg(idx(var(y), k1), var(x)))], []))
+                out.append(("SL %s=[%s]" % (y, x), [ex(asg(var(y), lit))], []))
         # mutations through x
         out.append(("m1 %s" % x, [ex(asg(idx(idx(var(x), k1), num(1)), num(9)))], []))
         out.append(("m2 %s" % x, [ex(mcall(idx(var(x), k1), "@append", num(7)))], []))
@@ -112,7 +119,7 @@ def run(ctx):
     samples = [dict(tag=p["tag"], source=res[p["id"]].get("src"), spec_display=vecs[p["id"]]["out"]) for p in pick]
     cov = dict(traces_validated_against_impl=stats["programs"] - stats["skipped"], samples=samples,
                evaluations=stats["programs"], distinct_nontrivial=len(set(p["tag"] for p in progs)),
-               rule="copy/mutate histories over names A..D starting from a nested list or a dictionary of lists: steps = declare-copy, multi-declare, assign, "
+               rule="copy/mutate histories over names A..D starting from a nested list or a dictionary of lists: steps = declare-copy, multi-declare, assign, the same three with a literal that mentions a variable, "
                     "element/key assignment of a collection, 5 mutations through any name at nesting 1-2 (index/key assignment, 后增, 左移, 写入, 移除), "
                     "mutation through a 遍历 loop variable; every variable is displayed after every step. Exhaustive for <= %d steps, seeded random for 3-5 "
                     "steps; plus object sharing / default-copy / literal-freshness programs. The ZnEval heap machine (deep copy on bind, reference "
